@@ -123,10 +123,12 @@ class BucketWorld(object):
 
   def set_limits(self, cap, rate):
     self.ctx.probe('limit_change')
-    self.b.setCapacityAndFillRate(cap, rate)
+    # recorded before the call: a grant made by the other thread while this one is
+    # pre-empted inside setCapacityAndFillRate already falls under the new limits
     self.changes.append((self.s.now, float(cap), float(rate)))
     self.rate_segments.append((self.s.now, float(rate)))
     self.caps.append((len(self.grants), float(cap)))
+    self.b.setCapacityAndFillRate(cap, rate)
 
   def do_t2(self, op):
     if op[0] == 'advance':
